@@ -131,3 +131,115 @@ func TestToolSubjectsAndSquash(t *testing.T) {
 		t.Logf("%-52s %d", k, counts[k])
 	}
 }
+
+// TestBlankEdges: the options added for blanks at the edges of log lines (paths whose components end with
+// blanks or consist of blanks, twins, runs of blanks inside a component, commits without a message). Every
+// drawn history is built with real git and compared with simulation and emulator. With the options off the
+// generator draws exactly what it drew before (same value for the same seed).
+func TestBlankEdges(t *testing.T) {
+	base, err := os.MkdirTemp("", "ggen-blank-")
+	if err != nil {
+		t.Fatal(err)
+	}
+	defer os.RemoveAll(base)
+	o := AllFeatures
+	o.LeadingBlankPaths, o.ToolSubjects, o.SquashMerges, o.ExecFiles, o.ModeChanges, o.AffixNames, o.BulkAdds = true, true, true, true, true, true, true
+	o.TrailingBlankPaths, o.BlankRunPaths, o.EmptySubjects = true, true, true
+	n := 80
+	if v, err := strconv.Atoi(os.Getenv("GGEN_N")); err == nil {
+		n = v
+	}
+	g := rapid.Custom(func(t *rapid.T) History { return Gen(t, o) })
+	counts := map[string]int{}
+	for i := 1; i <= n; i++ {
+		h := g.Example(i)
+		for _, c := range h.Commits {
+			s := c.Subject
+			if s != strings.TrimSpace(s) || strings.ContainsAny(s, "\t\n\r") {
+				t.Fatalf("seed %d: subject %q", i, s)
+			}
+		}
+		sim, err := Simulate(h)
+		if err != nil {
+			t.Fatalf("seed %d: %v", i, err)
+		}
+		repo, err := Build(base, sim)
+		if err != nil {
+			t.Fatalf("seed %d: %v", i, err)
+		}
+		err = Validate(sim, repo)
+		repo.Remove()
+		if err != nil {
+			t.Fatalf("seed %d: %v", i, err)
+		}
+		for _, f := range Features(sim) {
+			counts[f]++
+		}
+	}
+	for _, k := range []string{"path_trailing_blank", "path_component_trailing_blank", "path_only_blanks", "path_component_only_blanks",
+		"path_blank_run_inside_component", "paths_differ_only_by_trailing_blanks_in_commit", "subject_empty_on_commit_with_changes"} {
+		if counts[k] == 0 {
+			t.Errorf("feature %s never drawn in %d histories", k, n)
+		}
+	}
+	var keys []string
+	for k := range counts {
+		keys = append(keys, k)
+	}
+	sort.Strings(keys)
+	for _, k := range keys {
+		t.Logf("%-60s %d", k, counts[k])
+	}
+	// options off: the old generator, draw for draw
+	off := AllFeatures
+	off.LeadingBlankPaths = true
+	for i := 1; i <= 30; i++ {
+		a := rapid.Custom(func(t *rapid.T) History { return Gen(t, off) }).Example(i)
+		for _, c := range a.Commits {
+			if c.Subject == "" {
+				t.Fatalf("seed %d: empty subject with the option off", i)
+			}
+			for _, op := range c.Ops {
+				for _, p := range []string{op.Path, op.To} {
+					if strings.HasSuffix(p, " ") || strings.Contains(p, " /") || strings.Contains(p, "  ") {
+						t.Fatalf("seed %d: path %q with the options off", i, p)
+					}
+				}
+			}
+		}
+	}
+}
+
+// TestNamesAndDirectoriesDisjoint: no file name of the pools is a directory component of the pools, also not
+// after blanks have been appended to either (twins), so that the two lanes of a history never hold a file and
+// a directory of the same name.
+func TestNamesAndDirectoriesDisjoint(t *testing.T) {
+	files := map[string]string{}
+	for _, pool := range [][]string{namePool, namePoolNum, namePoolAffix, namePoolBlank, namePoolTrail, namePoolOnlyBlank, namePoolRun} {
+		for _, n := range pool {
+			files[strings.TrimRight(n, " ")] = n
+			if strings.TrimRight(n, " ") == "" && len(n) > 2 {
+				t.Errorf("file name of %d blanks", len(n))
+			}
+		}
+	}
+	for _, pool := range [][]string{dirPool, dirPoolNumeric, dirPoolBlank, dirPoolTrail, dirPoolOnlyBlank, dirPoolRun, compPool, compPoolTrail, compPoolOnlyBlank} {
+		for _, d := range pool {
+			for _, comp := range strings.Split(d, "/") {
+				if comp == "" {
+					continue
+				}
+				key := strings.TrimRight(comp, " ")
+				if key == "" {
+					if len(comp) < 3 {
+						t.Errorf("directory name of %d blanks", len(comp))
+					}
+					continue
+				}
+				if n, ok := files[key]; ok {
+					t.Errorf("directory component %q and file name %q", comp, n)
+				}
+			}
+		}
+	}
+}
